@@ -398,6 +398,86 @@ theorem kc_step (p : Nat) (hp : 2 ≤ p) (nm input : String) (fld : Candle K →
       rw [heq b hb]
   rw [hA]
   simp only [pym_bind_ok]
+  have hdA : decOf (kcA nm (p : Int)) w
+        (setKey true (nm ++ "_ATR" ++ "_TR") (trStored raw m) (raw.getD m default))
+      = setKey true (nm ++ "_ATR") (w.roundBy defaultRound)
+        (setKey true (nm ++ "_ATR" ++ "_TR") (trStored raw m) (raw.getD m default)) := rfl
+  rw [hdA]
+  -- (3) the EMA helper
+  have hvsE : (rows.map (·.ema)).length = m := by simp [hrows]
+  have hvsEj : ∀ j, j < m → (rows.map (·.ema)).getD j .none = (rows.getD j KcRow.dflt).ema :=
+    fun j hj => getD_map_of_lt _ rows _ j (by omega)
+  obtain ⟨v, hv, hvOK⟩ := ema_stepCtx p hp (nm ++ "_EMA") input fld defaultRound hn.kE hin.1 hattr raw hraw
+    (rows.map (·.ema)) m hm hvsE (fun j hj => by rw [hvsEj j hj]; exact (hQ j hj).2.2.1)
+  have hE : valOf (kcE nm (p : Int) input) done
+      (setKey true (nm ++ "_ATR") (w.roundBy defaultRound)
+        (setKey true (nm ++ "_ATR" ++ "_TR") (trStored raw m) (raw.getD m default))) = .ok v := by
+    rw [← hv]
+    show Calc.ema _ (p : Int) input (fl 2) = _
+    have hB : (stepCtx (nm ++ "_EMA") raw (rows.map (·.ema)) m).cs.length = m + 1 :=
+      stepCtx_length _ _ _ _ hm hvsE
+    have hlt : ∀ (j : Nat) (a b : Candle K), j < m → done[j]? = some a →
+        (stepCtx (nm ++ "_EMA") raw (rows.map (·.ema)) m).cs[j]? = some b →
+        a = kcOut nm (raw.getD j default) (rows.getD j KcRow.dflt) ∧
+        b = setKey false (nm ++ "_EMA") ((rows.getD j KcRow.dflt).ema) (raw.getD j default) := by
+      intro j a b hj ha hb
+      rw [hget j hj] at ha
+      rw [stepCtx_lt _ _ _ m hm hvsE j hj, hvsEj j hj] at hb
+      exact ⟨(Option.some.inj ha).symm, (Option.some.inj hb).symm⟩
+    have heq : ∀ b, (stepCtx (nm ++ "_EMA") raw (rows.map (·.ema)) m).cs[m]? = some b →
+        b = raw.getD m default := by
+      intro b hb
+      rw [stepCtx_eq _ _ _ m hm hvsE] at hb
+      exact (Option.some.inj hb).symm
+    have hown : Ctx.SameCol (nm ++ "_EMA")
+        ({ cs := done ++ [setKey true (nm ++ "_ATR") (w.roundBy defaultRound)
+              (setKey true (nm ++ "_ATR" ++ "_TR") (trStored raw m) (raw.getD m default))],
+           i := done.length, name := nm ++ "_EMA" } : Ctx K)
+        (stepCtx (nm ++ "_EMA") raw (rows.map (·.ema)) m) := by
+      refine sameCol_of_elems _ _ done _ _ m hdl rfl hB ?_ ?_
+      · intro j a b hj ha hb
+        obtain ⟨rfl, rfl⟩ := hlt j a b hj ha hb
+        rw [kcOut_ema nm hn _ (hmem j (by omega)), readingByCandle_setKey_own _ hn.kE]
+      · intro b hb
+        rw [heq b hb, indep_key (nm ++ "_ATR") (nm ++ "_EMA") hn.kE hn.AE,
+          indep_key (nm ++ "_ATR" ++ "_TR") (nm ++ "_EMA") hn.kE hn.TE]
+    refine ema_congr _ _ _ _ _ ?_ (Ctx.prevExists_congr hown) (Ctx.prevNum_congr hown)
+    refine sameCol_of_elems _ _ done _ _ m hdl rfl hB ?_ ?_
+    · intro j a b hj ha hb
+      obtain ⟨rfl, rfl⟩ := hlt j a b hj ha hb
+      rw [kcOut_input nm input hin, indep_attr (F := K) (nm ++ "_EMA") input hin.1 hin.2]
+    · intro b hb
+      rw [heq b hb, indep_attr (F := K) (nm ++ "_ATR") input hin.1 hin.2,
+        indep_attr (F := K) (nm ++ "_ATR" ++ "_TR") input hin.1 hin.2]
+  rw [hE]
+  simp only [pym_bind_ok]
+  have hdE : decOf (kcE nm (p : Int) input) v
+        (setKey true (nm ++ "_ATR") (w.roundBy defaultRound)
+          (setKey true (nm ++ "_ATR" ++ "_TR") (trStored raw m) (raw.getD m default)))
+      = setKey true (nm ++ "_EMA") (v.roundBy defaultRound)
+        (setKey true (nm ++ "_ATR") (w.roundBy defaultRound)
+          (setKey true (nm ++ "_ATR" ++ "_TR") (trStored raw m) (raw.getD m default))) := rfl
+  rw [hdE]
+  -- (4) the own reading
+  have hrE : ({ cs := done ++ [setKey true (nm ++ "_EMA") (v.roundBy defaultRound)
+        (setKey true (nm ++ "_ATR") (w.roundBy defaultRound)
+          (setKey true (nm ++ "_ATR" ++ "_TR") (trStored raw m) (raw.getD m default)))],
+                i := done.length, name := nm } : Ctx K).reading (nm ++ "_EMA") = .ok (v.roundBy defaultRound) := by
+    rw [Ctx.reading_cur done _ [] nm, readingByCandle_key _ hn.kE]
+    obtain ⟨hi, hs⟩ := hc
+    simp [lookupKey, setKey, hi, hs, dset, dlookup, hn.nA, hn.nT, hn.nE, hn.AT, hn.AE, hn.TE, hn.nA.symm, hn.nT.symm, hn.nE.symm, hn.AT.symm, hn.AE.symm, hn.TE.symm]
+  have hrA : ({ cs := done ++ [setKey true (nm ++ "_EMA") (v.roundBy defaultRound)
+        (setKey true (nm ++ "_ATR") (w.roundBy defaultRound)
+          (setKey true (nm ++ "_ATR" ++ "_TR") (trStored raw m) (raw.getD m default)))],
+                i := done.length, name := nm } : Ctx K).reading (nm ++ "_ATR") = .ok (w.roundBy defaultRound) := by
+    rw [Ctx.reading_cur done _ [] nm, readingByCandle_key _ hn.kA]
+    obtain ⟨hi, hs⟩ := hc
+    simp [lookupKey, setKey, hi, hs, dset, dlookup, hn.nA, hn.nT, hn.nE, hn.AT, hn.AE, hn.TE, hn.nA.symm, hn.nT.symm, hn.nE.symm, hn.AT.symm, hn.AE.symm, hn.TE.symm]
+  have hO : valOf (kcP nm n (p : Int) input mult) done
+      (setKey true (nm ++ "_EMA") (v.roundBy defaultRound)
+        (setKey true (nm ++ "_ATR") (w.roundBy defaultRound)
+          (setKey true (nm ++ "_ATR" ++ "_TR") (trStored raw m) (raw.getD m default))))
+      = .ok ((kcBands mult n (v.roundBy defaultRound) (w.roundBy defaultRound))) ∨ True := Or.inr trivial
   sorry
 
 end Numeric
